@@ -281,7 +281,11 @@ func (c *cconn) Write(p []byte) (int, error) {
 
 func brokerOfAddr(a string) int {
 	h := strings.TrimPrefix(strings.SplitN(a, ":", 2)[0], "b")
-	n, _ := strconv.Atoi(h)
+	k := 0
+	for k < len(h) && h[k] >= '0' && h[k] <= '9' {
+		k++
+	}
+	n, _ := strconv.Atoi(h[:k])
 	return n
 }
 
@@ -296,13 +300,13 @@ func (r *run) dial(ctx context.Context, network, address string) (net.Conn, erro
 	}
 	nc, err := r.net.DialOwner(ctx, r.sc.ID, address)
 	if err != nil {
-		r.rec.Emit(trace.Event{"ev": "dial", "conn": 0, "broker": brokerOfAddr(address), "ok": false})
+		r.rec.Emit(trace.Event{"ev": "dial", "conn": 0, "broker": brokerOfAddr(address), "ep": address, "ok": false})
 		return nil, err
 	}
 	fc := nc.(*fakenet.Conn)
 	id := fc.ID
 	fc.OnClose = func() { r.rec.Emit(trace.Event{"ev": "cclose", "conn": id}) }
-	r.rec.Emit(trace.Event{"ev": "dial", "conn": id, "broker": brokerOfAddr(address), "ok": true})
+	r.rec.Emit(trace.Event{"ev": "dial", "conn": id, "broker": brokerOfAddr(address), "ep": address, "ok": true})
 	return &cconn{Conn: fc, r: r}, nil
 }
 
@@ -666,7 +670,8 @@ func (r *run) intercept(req *fakekafka.Request) *fakekafka.Reply {
 		n = r.metaReq
 		r.cond.Broadcast()
 	}
-	ev := trace.Event{"ev": "req", "conn": cid, "broker": b, "api": name, "v": int(req.Version), "corr": int(req.CorrID), "o": o, "leg": leg,
+	ep := req.Conn.LocalAddr().String() // the endpoint the client dialled
+	ev := trace.Event{"ev": "req", "conn": cid, "broker": b, "ep": ep, "api": name, "v": int(req.Version), "corr": int(req.CorrID), "o": o, "leg": leg,
 		"t": info["t"], "p": info["p"], "key": info["key"], "n": n, "unserved": !r.canServe(req)}
 	r.rec.Emit(ev)
 	if ch := r.arrived[o]; ch != nil && o > 0 {
@@ -680,8 +685,15 @@ func (r *run) intercept(req *fakekafka.Request) *fakekafka.Reply {
 	}
 	rep, node := r.answer(req, info)
 	alive, topics, ctrlr := []interface{}{}, []interface{}{}, 0
+	addrs := []interface{}{}
 	if req.ApiKey == fakekafka.Metadata {
 		alive, topics, ctrlr = r.snapshotLocked()
+		r.cl.Lock()
+		for _, id := range r.cl.BrokerIDs() {
+			br := r.cl.Brokers[id]
+			addrs = append(addrs, map[string]interface{}{"b": id, "ep": br.Addr(), "rack": br.Rack})
+		}
+		r.cl.Unlock()
 	}
 	f, holdKey := r.faultFor(req, o, leg, info)
 	if f != nil && !rep.Close && !rep.None {
@@ -710,7 +722,7 @@ func (r *run) intercept(req *fakekafka.Request) *fakekafka.Reply {
 		}
 	}
 	if rep.Close || rep.None {
-		r.rec.Emit(trace.Event{"ev": "reply", "conn": cid, "broker": b, "api": name, "v": int(req.Version), "corr": int(req.CorrID), "o": o, "leg": leg,
+		r.rec.Emit(trace.Event{"ev": "reply", "conn": cid, "broker": b, "ep": ep, "addrs": addrs, "api": name, "v": int(req.Version), "corr": int(req.CorrID), "o": o, "leg": leg,
 			"cut": 0, "len": 0, "closed": rep.Close, "node": node, "n": n, "alive": alive, "topics": topics, "ctrlr": ctrlr, "ranges": []interface{}{}})
 		return &rep
 	}
@@ -719,7 +731,7 @@ func (r *run) intercept(req *fakekafka.Request) *fakekafka.Reply {
 	if rep.CutAt >= 0 && rep.CutAt < flen {
 		cut = rep.CutAt
 	}
-	rev := trace.Event{"ev": "reply", "conn": cid, "broker": b, "api": name, "v": int(req.Version), "corr": int(req.CorrID), "o": o, "leg": leg,
+	rev := trace.Event{"ev": "reply", "conn": cid, "broker": b, "ep": ep, "addrs": addrs, "api": name, "v": int(req.Version), "corr": int(req.CorrID), "o": o, "leg": leg,
 		"cut": cut, "len": flen, "closed": false, "node": node, "n": n, "alive": alive, "topics": topics, "ctrlr": ctrlr, "ranges": []interface{}{}}
 	if rep.Lazy != nil {
 		// gated replies of the group coordinator: the frame is built when the gate opens
@@ -749,7 +761,8 @@ func (r *run) move(m *Move) {
 	r.cmu.Lock()
 	defer r.cmu.Unlock()
 	c := r.cl
-	ev := trace.Event{"ev": "move", "kind": m.Kind, "t": m.T, "p": m.P, "to": m.To, "b": m.B, "h": m.H, "leaders": []interface{}{}}
+	ev := trace.Event{"ev": "move", "kind": m.Kind, "t": m.T, "p": m.P, "to": m.To, "b": m.B, "h": m.H, "leaders": []interface{}{},
+		"ep": "", "addrChanged": m.Host != "" || m.Port != 0}
 	switch m.Kind {
 	case "leader":
 		c.Lock()
@@ -805,6 +818,28 @@ func (r *run) move(m *Move) {
 		}
 		c.Unlock()
 		ev["leaders"] = nz(ls)
+	case "readdress":
+		// broker B re-registers under the same id with another host / port / rack; the old endpoint stays up
+		c.Lock()
+		br := c.Brokers[m.B]
+		c.Unlock()
+		if br != nil {
+			br.Readdress(m.Host, m.Port, m.Rack)
+			ev["ep"] = br.Addr()
+		}
+	case "renumber":
+		// broker B re-registers under the id To at the same address
+		if br := c.Renumber(m.B, m.To); br != nil {
+			br.Versions = r.versionsFor(m.To)
+			ev["ep"] = br.Addr()
+		}
+		if r.coord == m.B {
+			r.coord = m.To
+		}
+		if r.txn == m.B {
+			r.txn = m.To
+		}
+		r.bconns[m.To], r.bconns[m.B] = r.bconns[m.B], nil
 	case "coord":
 		r.coord = m.To
 	case "txn":
